@@ -84,8 +84,11 @@ Proof. intros b. reflexivity. Qed.
 Print Assumptions C07_ghost_fresh.
 
 (* ---- begin block: two-endpoint composition (Model/Net.v + Net2.v, Proofs/AckNetP.v) ---- *)
+From Coq Require Import Lia.
+From RecordUpdate Require Import RecordUpdate.
 From Model Require Import Net Net2.
 From Proofs Require Import AckNetP.
+Import RecordSetNotations.
 
 (* 5. "Success means accepted" as ONE theorem over joint histories of the two endpoints A (the
       sender whose callbacks are observed) and B (its peer).  1 and 4 above are its two halves;
@@ -233,6 +236,61 @@ Proof.
   split; [exact HJ|]. split; [constructor|]. split; [exact HA|]. split; [exact (auth_run_wf2 _ _ _ _ _ HJ HA)|].
   split; [vm_compute; reflexivity|]. vm_compute. repeat split; auto 10.
 Qed.
+
+(* The (fresh) hypothesis cannot be dropped: with (auth) and (near) only — every datagram opened
+   was genuinely emitted by the peer, so this is a STALE, not a forged, ack field — the clause is
+   false in the faithful model.  Sequence numbers are 16 bit: an ack header built when B's newest
+   accepted index was m names the wire numbers of m-32..m, which are also the wire numbers of
+   m+65535-32..m+65535.  Witness: the joint state reached by the handshake example above, with A
+   later in its session (65537 sequence numbers consumed, nothing pending — J holds of it: J_with_A);
+   B has accepted A's indices 1,2,3 and nothing since (A -> B traffic lost).  A sends "C" with
+   callback 9: datagram index 65538, wire number 3.  B's next keep-alive honestly says ack = 3;
+   A opens it and reports callback 9 = True, although B never received index 65538 and "C" was
+   never handed to B's application.  (The state is given directly rather than reached by a
+   65 534-step history; on the real endpoints the situation needs A to emit 65 535 datagrams —
+   18 minutes at the default 60 Hz — while its own datagrams are lost and it keeps hearing acks
+   with the old ack field: from a peer whose liveness time-out does not fire, or from an attacker
+   replaying one recorded datagram of B that is more than 32 behind A's receive window, which
+   BitField.insert accepts every time, cf. known finding D16.) *)
+Definition Gn6 := gstep env_n Gn5 (NA xn6, 0).
+Definition a_late : conn := (nA (g_net Gn6)) <| c_seq_send := 2 |> <| c_packs := [] |> <| c_pcbs := [] |>.
+Definition G_late : gnet := with_A Gn6 a_late 65537.
+Definition hl1 : list lev :=
+  [(NA (ESend [x43] RNone (IUser 9)), 0); (NA (EClientTick 11000 RxNone), 0); (NB (EServerTick 12000), 0)].
+Definition Gl1 := grun env_n G_late hl1.
+Definition xl2 : ev := EClientTick 13000 (RxDgram (lastBA Gl1) []).
+
+Theorem C07_stale_ack_refuted : exists G vs x,
+  J 256 (-1) G /\ Inc (nA (g_net G)) /\ nofresh_run env_n G (vs ++ [(NA x, 0)]) /\
+  In (OCallback 9 true) (snd (step env_n (nA (g_net (grun env_n G vs))) x)) /\
+  g_nA (grun env_n G vs) = 65538 /\ c_packs (nA (g_net (grun env_n G vs))) = [(3, 11000)] /\ wire 65538 = 3 /\
+  idx_acc (g_B (grun env_n G vs)) = [3; 2; 1] /\
+  sentA (g_net (grun env_n G vs)) = [[x43]; [x41; x42]] /\ dlvB (g_net (grun env_n G vs)) = [[x41; x42]].
+Proof.
+  exists G_late, hl1, xl2.
+  destruct C07_success_means_accepted_example as (HJ0 & _ & _ & Hwf & _).
+  assert (HJ6 : J 256 0 Gn6).
+  { replace Gn6 with (grun env_n gnet0 (hn ++ [(NA xn6, 0)])) by (vm_compute; reflexivity). exact (J_run _ _ _ _ _ HJ0 Hwf). }
+  assert (HAl : AInv 256 (-1) a_late 65537).
+  { (assert (E1 : c_packs a_late = []) by (vm_compute; reflexivity)).
+    split; [constructor|unfold purged; rewrite E1; constructor].
+    - lia.
+    - (vm_compute; reflexivity).
+    - (replace (c_send_interval a_late) with 256 by (vm_compute; reflexivity)). clear; lia.
+    - clear; lia.
+    - (replace (c_out_timeout a_late) with 15360 by (vm_compute; reflexivity)). clear; unfold RING; lia.
+    - rewrite E1. constructor.
+    - rewrite E1. constructor.
+    - (vm_compute; reflexivity). }
+  split; [apply (J_with_A 256 0 (-1) Gn6 a_late 65537 HJ6 HAl); vm_compute; discriminate|].
+  split; [(vm_compute; constructor)|].
+  split.
+  { unfold hl1, xl2. cbn [app nofresh_run nofresh_ev ev_open2].
+    repeat match goal with |- _ /\ _ => split end; try exact I.
+    all: ev_goal. all: fin_goal. }
+  (vm_compute; repeat split; auto 10).
+Qed.
+Print Assumptions C07_stale_ack_refuted.
 (* ---- end block: two-endpoint composition ---- *)
 
 (* Invariant used by 1 (fragment sender contexts kept in pending_fragments are never complete):
